@@ -14,7 +14,7 @@ RULE = ("reference = random tree / cyclic graph / exactly collinear chain (axes,
 
 def generate(ctx):
     rng = ctx.rng
-    for _ in range(ctx.n(250, 12000)):
+    for _ in range(ctx.n(800, 12000)):
         cls = rng.choice(["generic-tree", "generic-tree", "generic-cyclic", "collinear-chain", "axis-chain",
                           "tilted-axis-chain", "partly-collinear", "nearly-collinear", "lattice"])
         pos, bonds, cls = E.gen_ref(rng, cls)
@@ -72,6 +72,10 @@ def evaluate(ctx, case):
                 break
     if not impl["inputs_unchanged"]:
         fails.append("inputs-modified")
+    if not impl["earlier_intact"]:
+        # the molecule returned by an EARLIER call of the same map (kept by the caller) changed when the map
+        # was applied again: what was returned for that conformation no longer satisfies the law
+        fails.append("earlier-result-changed-by-later-call")
     ctx.oracle_ok(len(tgt))
     for f in fails:
         ctx.oracle_fail(f"exchange_map:{f}:{case['cls']}", case, {"out": out, "equiv": impl["equiv"]})
